@@ -9,7 +9,9 @@ package abs
 
 import (
 	"encoding/binary"
+	"encoding/json"
 	"fmt"
+	"hash/fnv"
 	"math"
 
 	"github.com/pion/rtcp"
@@ -470,7 +472,25 @@ func buildXRBlock(x any) rtcp.ReportBlock {
 	}
 	// XRHeader of the defined block kinds is recomputed by every Marshal and is not part of the
 	// value: give it arbitrary non-zero content, as a caller reusing a struct would leave it
+	// value. What a caller's struct holds there varies: nothing, arbitrary content, or - after an
+	// earlier Marshal or Unmarshal of a block whose lists have since been edited - the right block
+	// type with a length that is no longer right. Which of these a built block gets is a function
+	// of the block's value (so that re-running a case reproduces it).
 	junk := rtcp.XRHeader{BlockType: 0x55, TypeSpecific: 0xFF, BlockLength: 0x1234}
+	bts := map[string]rtcp.BlockTypeType{"lrle": 1, "drle": 2, "prt": 3, "rrt": 4, "dlrr": 5, "ss": 6, "voip": 7}
+	if js, err := json.Marshal(m); err == nil {
+		h := fnv.New32a()
+		h.Write(js)
+		bt, _ := m["bt"].(string)
+		switch h.Sum32() % 4 {
+		case 1:
+			junk = rtcp.XRHeader{}
+		case 2:
+			junk = rtcp.XRHeader{BlockType: bts[bt], BlockLength: 2}
+		case 3:
+			junk = rtcp.XRHeader{BlockType: bts[bt], TypeSpecific: 0x0F, BlockLength: 9}
+		}
+	}
 	switch m["bt"] {
 	case "lrle":
 		return &rtcp.LossRLEReportBlock{XRHeader: junk, T: uint8(I(m["t"])), SSRC: GoU32(m["ssrc"]), BeginSeq: uint16(I(m["bs"])), EndSeq: uint16(I(m["es"])), Chunks: chunks(m["chunks"])}
